@@ -47,7 +47,7 @@ CHECKS = {
         design='6 C04'),
     'C05': dict(
         text='from_opchains/from_opgraph run with symbolic coefficients and symbolic interleaved charges over ALL chain-list skeletons in the bound '
-             '(L<=3, <=3 chains, ids incl. identity inside chains, duplicates, all orders); zero / cancelling / accumulate-to-one coefficient cases are paths; '
+             '(L<=3, <=3 chains, ids incl. identity inside chains, identity ids 0, 1 and 2, duplicates, all orders); zero / cancelling / accumulate-to-one coefficient cases are paths; '
              'the word-coefficient identities (free algebra) and the MPO matrix identity under a symbolic operator map are decided by SMT per path; from_opgraph is also run on '
              'arbitrary generated graphs (parallel same-operator edges, multi-operator edges, shuffled node ids).',
         note='Trusts z3, engine, the word-semantics oracle (refs/words.py). OpHalfchain.__hash__ is made constant by the shim (lookups decide by __eq__). '
@@ -63,10 +63,10 @@ CHECKS = {
     'C07': dict(
         text='Both molecular-Hamiltonian builders (spinless and spin-orbital; optimised and explicit path) run with ALL L^2+L^4 coefficients symbolic; '
              'the dense MPO matrix and an independent Fock-space operator (explicit fermionic signs) are compared entry by entry by SMT for all coefficient '
-             'values: spinless L=1..6 (7 thorough), spin L<=3 (4 thorough); spin explicit L=5 (6) structurally (construction succeeds, sparsity, nid_map consistency). '
+             'values: spinless L=1..8 (10 thorough), spin explicit L<=5 (6), spin optimised L<=4 (5) -- beyond dense reach column by column (every occupation-number basis state propagated through the symbolic MPO chain, i.e. the full matrix). '
              'The orbital-rotation gauge matrices are decided for all coefficient tensors and an arbitrary symbolic 2x2 unitary (L=4..6, every pair i).',
         note='Trusts the Fock-space oracle (validated numerically against the unchanged tree each run), z3, engine. Optimised path: zero pattern from a stated family, '
-             'remaining coefficient combinations assumed non-zero. Outside: spin dense L>=4(5), gauge transform for L>6(7), identically-zero operator.',
+             'remaining coefficient combinations assumed non-zero. Outside: spin L>5 (6), spinless L>8 (10), gauge transform for L>6(7), identically-zero operator.',
         design='6 C07'),
     'C12': dict(
         text='split_matrix_svd / retained_bond_indices / split_mps_tensor run with symbolic charges, entries and tolerance in [0,1); LAPACK SVD replaced by its '
